@@ -21,6 +21,7 @@ import (
 	"sort"
 	"strings"
 	"sync"
+	"sync/atomic"
 	"testing"
 	"time"
 
@@ -38,9 +39,14 @@ type c04Fake struct {
 // below max_size, so that a non-last result can be below min_size.  Constant during one history.
 var c04Slack int
 
+// number of MergeSplit calls so far: Consume calls MergeSplit inside its critical section, so once the counter has
+// moved, locking and unlocking currentBatchMu returns only after that critical section is over
+var c04MSCalls atomic.Int64
+
 func (r *c04Fake) ItemsCount() int { return len(r.ids) }
 
 func (r *c04Fake) MergeSplit(_ context.Context, max int, _ request.SizerType, other request.Request) ([]request.Request, error) {
+	c04MSCalls.Add(1)
 	if r.foreign {
 		return nil, errors.New("invalid input type")
 	}
@@ -529,6 +535,325 @@ func c04History(out *vOut, r *vRand, timerMode bool) error {
 	return nil
 }
 
+// ---------------------------------------------------------------------------------------------------
+// worker contention: the batcher gets only 1-2 flush workers, so flush() BLOCKS (in Consume after its critical
+// section, in flushCurrentBatchIfNecessary and in Shutdown) until an export returns.  Every operation runs in its
+// own goroutine; the harness orders the operations by their critical sections (Consume: MergeSplit entered, then
+// currentBatchMu free again; timer flush: returned, or the parked batch detached) and waits for quiescence (every
+// operation has returned or no worker token is free, and every token taken has reached the export function).
+// The batcher's atomic sections are what the model's events are, so the same model applies: batches are compared as
+// a set (the order in which blocked flushes obtain a worker is not modelled), export results name a batch by its
+// first id.  Case term: (CBatC min max slack workers evs batches fired)%Z.
+// ---------------------------------------------------------------------------------------------------
+func c04Contended(out *vOut, r *vRand) error {
+	workers := 1 + r.Intn(2)
+	min := 1 + r.Intn(4)
+	max := 0
+	if r.Intn(5) != 0 {
+		max = min + r.Pick(3, 2, 1, 1, 1)
+	}
+	c04Slack = 0 // results filled to max: the first result of a merge always holds ids of the new request
+	rig := &c04Rig{}
+	next := func(_ context.Context, req request.Request) error {
+		fl := &c04Flight{req: req.(*c04Fake), ch: make(chan error)}
+		rig.mu.Lock()
+		rig.arrived = append(rig.arrived, fl)
+		rig.mu.Unlock()
+		return <-fl.ch
+	}
+	qb := newDefaultBatcher(BatchConfig{FlushTimeout: 0, MinSize: int64(min), MaxSize: int64(max)}, batcherSettings[request.Request]{
+		sizerType: request.SizerTypeItems, sizer: request.NewItemsSizer(), next: next, maxWorkers: workers})
+	var threads []chan struct{} // one per operation still running
+	finished, taken := 0, 0
+	unreliable := false
+	var evs []c04Ev
+	var open []*c04Flight
+	reqIDs := map[int][]int{}
+	reqForeign := map[int]bool{}
+	exportedAt := map[int]int{} // id -> how many times exported
+	doneIDs := map[int]bool{}   // ids whose batch has returned
+	batchFailed := map[int]bool{}
+	idBatch := map[int]int{}
+	var batches [][]int
+	nfiredSeen := 0
+	nreq, nextID := 0, 0
+	parked := func() bool {
+		qb.currentBatchMu.Lock()
+		defer qb.currentBatchMu.Unlock()
+		return qb.currentBatch != nil
+	}
+	alive := func() int {
+		n := 0
+		kept := threads[:0]
+		for _, t := range threads {
+			select {
+			case <-t:
+			default:
+				kept = append(kept, t)
+				n++
+			}
+		}
+		threads = kept
+		return n
+	}
+	settle := func() error {
+		err := c04Poll("quiescence under worker contention", func() bool {
+			free := len(qb.workerPool)
+			if alive() > 0 && free > 0 {
+				return false // a running operation can still take a worker
+			}
+			rig.mu.Lock()
+			n := len(rig.arrived)
+			rig.mu.Unlock()
+			return n-finished == workers-free
+		})
+		if err != nil {
+			return err
+		}
+		rig.mu.Lock()
+		fresh := append([]*c04Flight(nil), rig.arrived[taken:]...)
+		taken = len(rig.arrived)
+		fired := append([][2]int(nil), rig.fired...)
+		rig.mu.Unlock()
+		for _, f := range fresh {
+			f.id = len(batches)
+			batches = append(batches, f.req.ids)
+			open = append(open, f)
+			for _, id := range f.req.ids {
+				exportedAt[id]++
+				idBatch[id] = f.id
+			}
+		}
+		// a callback that fired: every batch holding one of the request's ids must have returned already
+		for ; nfiredSeen < len(fired); nfiredSeen++ {
+			i := fired[nfiredSeen][0]
+			for _, id := range reqIDs[i] {
+				if !reqForeign[i] && !doneIDs[id] {
+					out.Oracle("done-before-batch-finished", "", fmt.Sprintf("contended workers=%d request=%d fired before the batch holding id %d returned", workers, i, id))
+				}
+			}
+		}
+		return nil
+	}
+	release := func(k int, fail bool) error {
+		f := open[k]
+		open = append(open[:k], open[k+1:]...)
+		var e error
+		if fail {
+			e = errors.New("export failed")
+		}
+		f.ch <- e
+		finished++
+		batchFailed[f.id] = fail
+		for _, id := range f.req.ids {
+			doneIDs[id] = true
+		}
+		evs = append(evs, c04Ev{kind: 2, b: f.req.ids[0], err: fail})
+		return settle()
+	}
+	steps := 5 + r.Intn(12)
+	for s := 0; s < steps; s++ {
+		switch r.Pick(6, 3, 3) {
+		case 0:
+			n := 1 + r.Intn(6)
+			ids := make([]int, n)
+			for i := range ids {
+				nextID++
+				ids[i] = nextID
+			}
+			foreign := r.Intn(16) == 0
+			reqIDs[nreq], reqForeign[nreq] = ids, foreign
+			before := c04MSCalls.Load()
+			th := make(chan struct{})
+			threads = append(threads, th)
+			i := nreq
+			go func() {
+				qb.Consume(context.Background(), &c04Fake{ids: ids, foreign: foreign}, &c04Done{rig: rig, i: i})
+				close(th)
+			}()
+			nreq++
+			if err := c04Poll("Consume enters its critical section", func() bool { return c04MSCalls.Load() > before }); err != nil {
+				return err
+			}
+			qb.currentBatchMu.Lock() // returns only when that critical section is over
+			qb.currentBatchMu.Unlock()
+			evs = append(evs, c04Ev{kind: 0, ids: ids, foreign: foreign})
+		case 1:
+			was := parked()
+			th := make(chan struct{})
+			threads = append(threads, th)
+			go func() {
+				qb.flushCurrentBatchIfNecessary()
+				close(th)
+			}()
+			// its critical section is over when it has returned or, if a batch was parked, when that batch is detached;
+			// bounded wait: an implementation that does not detach under the lock is then driven on, not waited for
+			if !was {
+				// nothing is parked: the call returns at once; wait for it so that it cannot run after a later Consume
+				select {
+				case <-th:
+				case <-time.After(60 * time.Second):
+					return errors.New("deadline: flushCurrentBatchIfNecessary on an empty batcher does not return")
+				}
+			} else {
+				t0 := time.Now()
+			wait:
+				for parked() && time.Since(t0) < 400*time.Millisecond {
+					select {
+					case <-th:
+						break wait
+					default:
+						time.Sleep(50 * time.Microsecond)
+					}
+				}
+				select {
+				case <-th:
+				default:
+					if parked() {
+						unreliable = true // the order of the critical sections is not known
+						out.Stat("contended.timer_flush_not_detached", 1)
+					}
+				}
+			}
+			evs = append(evs, c04Ev{kind: 1})
+		default:
+			if len(open) == 0 {
+				continue
+			}
+			if err := release(r.Intn(len(open)), r.Intn(3) == 0); err != nil {
+				return err
+			}
+			continue
+		}
+		if err := settle(); err != nil {
+			return err
+		}
+	}
+	// shutdown: flushes the parked batch (may block for a worker), then waits for every flush goroutine
+	sd := make(chan struct{}) // not in `threads`: it stays alive in stopWG.Wait() while workers are free
+	go func() {
+		_ = qb.Shutdown(context.Background())
+		close(sd)
+	}()
+	evs = append(evs, c04Ev{kind: 3})
+	t0 := time.Now()
+	for parked() && time.Since(t0) < 400*time.Millisecond {
+		time.Sleep(50 * time.Microsecond)
+	}
+	if parked() {
+		unreliable = true
+	}
+	if err := settle(); err != nil {
+		return err
+	}
+	deadline := time.Now().Add(60 * time.Second)
+	for {
+		select {
+		case <-sd:
+		default:
+			if time.Now().After(deadline) {
+				return errors.New("deadline: Shutdown does not return under worker contention")
+			}
+			if len(open) > 0 {
+				if err := release(r.Intn(len(open)), r.Intn(3) == 0); err != nil {
+					return err
+				}
+			} else {
+				time.Sleep(50 * time.Microsecond)
+				if err := settle(); err != nil {
+					return err
+				}
+			}
+			continue
+		}
+		break
+	}
+	for len(open) > 0 { // flights that arrived although Shutdown returned
+		if err := release(0, false); err != nil {
+			return err
+		}
+	}
+	// ---- direct oracle ----
+	rig.mu.Lock()
+	fired := append([][2]int(nil), rig.fired...)
+	rig.mu.Unlock()
+	cnt, ferr := map[int]int{}, map[int]int{}
+	for _, f := range fired {
+		cnt[f[0]]++
+		ferr[f[0]] = f[1]
+	}
+	detail := fmt.Sprintf("contended workers=%d min=%d max=%d", workers, min, max)
+	for i := 0; i < nreq; i++ {
+		if cnt[i] != 1 {
+			out.Oracle("done-not-exactly-once", "", fmt.Sprintf("%s request=%d fired=%d times", detail, i, cnt[i]))
+			continue
+		}
+		if reqForeign[i] {
+			if ferr[i] != 1 {
+				out.Oracle("done-error-mismatch", "", fmt.Sprintf("%s request=%d MergeSplit failed but done reported success", detail, i))
+			}
+			continue
+		}
+		anyFail := false
+		for _, id := range reqIDs[i] {
+			switch exportedAt[id] {
+			case 1:
+				anyFail = anyFail || batchFailed[idBatch[id]]
+			case 0:
+				out.Oracle("batch-lost-item", "", fmt.Sprintf("%s request=%d id=%d never exported", detail, i, id))
+			default:
+				out.Oracle("batch-duplicate", "", fmt.Sprintf("%s request=%d id=%d exported %d times", detail, i, id, exportedAt[id]))
+			}
+		}
+		if (ferr[i] == 1) != anyFail {
+			out.Oracle("done-error-mismatch", "", fmt.Sprintf("%s request=%d reported error=%d but a batch failed=%v contended", detail, i, ferr[i], anyFail))
+		}
+	}
+	for b, ids := range batches {
+		if max > 0 && len(ids) > max {
+			out.Oracle("batch-size-bound", "", fmt.Sprintf("%s batch=%d items=%d", detail, b, len(ids)))
+		}
+	}
+	out.Stat("contended.histories", 1)
+	out.Stat(fmt.Sprintf("contended.workers_%d", workers), 1)
+	if unreliable {
+		out.Stat("contended.discarded_ordering", 1)
+		return nil
+	}
+	// ---- case term ----
+	evt := make([]string, len(evs))
+	for i, e := range evs {
+		switch e.kind {
+		case 0:
+			f := 0
+			if e.foreign {
+				f = 1
+			}
+			evt[i] = fmt.Sprintf("(0,%s,%d)", c04IntList(e.ids), f)
+		case 1:
+			evt[i] = "(1,[],0)"
+		case 2:
+			x := 0
+			if e.err {
+				x = 1
+			}
+			evt[i] = fmt.Sprintf("(2,[%d],%d)", e.b, x)
+		default:
+			evt[i] = "(3,[],0)"
+		}
+	}
+	bt := make([]string, len(batches))
+	for i, b := range batches {
+		bt[i] = c04IntList(b)
+	}
+	ft := make([]string, len(fired))
+	for i, f := range fired {
+		ft[i] = fmt.Sprintf("(%d,%d)", f[0], f[1])
+	}
+	out.Case(len(batches) > 1, fmt.Sprintf("(CBatC %d %d %d %d [%s] [%s] [%s])%%Z", min, max, c04Slack, workers, strings.Join(evt, ";"), strings.Join(bt, ";"), strings.Join(ft, ";")))
+	return nil
+}
+
 func TestVerifC04Batcher(t *testing.T) {
 	out := vOpen()
 	defer out.Close()
@@ -542,6 +867,12 @@ func TestVerifC04Batcher(t *testing.T) {
 	}
 	for i := 0; i < vBudget(12, 4); i++ {
 		if err := c04History(out, r, true); err != nil {
+			out.Oracle("batcher-stuck", "", err.Error())
+			t.Fatal(err)
+		}
+	}
+	for i := 0; i < vBudget(120, 8); i++ {
+		if err := c04Contended(out, r); err != nil {
 			out.Oracle("batcher-stuck", "", err.Error())
 			t.Fatal(err)
 		}
